@@ -38,6 +38,7 @@ const (
 	ActNone = iota // no action: default X[0] / nil for empty
 	ActCall        // << act.N(id, args...) >> or act.NC($Context, id, args...)
 	ActPass        // << $i, nil >>
+	ActRaw         // << Raw >> verbatim (hostile-spelling workload only; no expectation can be derived)
 )
 
 type ArgRef struct {
@@ -50,6 +51,7 @@ type Action struct {
 	Args []ArgRef
 	Ctx  bool
 	Pass int
+	Raw  string
 }
 
 type Alt struct {
@@ -66,16 +68,18 @@ type Prod struct {
 }
 
 type Grammar struct {
-	ID        string
-	Lex       []LexDef
-	Prods     []*Prod
-	Flags     []string // flags the grammar needs ("-a", "-no_lexer")
-	Ambiguous bool     // derivation tree is not the unique parse tree: no derivation-based expectations
-	Tight     bool     // whitespace may be omitted next to literal tokens
-	Seps      []string // separators (ignored-token text) used between tokens; default " "
-	Optional  bool     // seeded random grammar: dropped (not failed) if gocc refuses it
-	NoCompile bool     // header/actions are not valid Go in the harness module (text taken from elsewhere)
-	RawText   string   // if set, the grammar is this text (no IR); only gocc-level checks use it
+	ID            string
+	Lex           []LexDef
+	Prods         []*Prod
+	Flags         []string // flags the grammar needs ("-a", "-no_lexer")
+	Ambiguous     bool     // derivation tree is not the unique parse tree: no derivation-based expectations
+	Tight         bool     // whitespace may be omitted next to literal tokens
+	Seps          []string // separators (ignored-token text) used between tokens; default " "
+	HeaderImports []string // extra import lines of the file header, e.g. `"fmt"`
+	RawUsesToken  bool     // a raw action uses a $T form: the header must import the token package
+	Optional      bool     // seeded random grammar: dropped (not failed) if gocc refuses it
+	NoCompile     bool     // header/actions are not valid Go in the harness module (text taken from elsewhere)
+	RawText       string   // if set, the grammar is this text (no IR); only gocc-level checks use it
 
 	alts  []*Alt
 	prodM map[string]*Prod
@@ -200,7 +204,7 @@ func (g *Grammar) UsesTokenForm() bool {
 			}
 		}
 	}
-	return false
+	return g.RawUsesToken
 }
 
 // Render produces the gocc BNF text.  pkg is the import path of the generated
@@ -220,12 +224,15 @@ func (g *Grammar) Render(pkg, actImport string) string {
 	}
 	uses := false
 	for _, a := range g.alts {
-		if a.Action.Kind == ActCall {
+		if a.Action.Kind == ActCall || a.Action.Kind == ActRaw {
 			uses = true
 		}
 	}
 	if uses {
 		b.WriteString("<<\nimport (\n")
+		for _, im := range g.HeaderImports {
+			fmt.Fprintf(&b, "\t%s\n", im)
+		}
 		fmt.Fprintf(&b, "\tact %q\n", actImport)
 		if g.UsesTokenForm() {
 			fmt.Fprintf(&b, "\t%q\n", pkg+"/token")
@@ -280,6 +287,8 @@ func (a *Alt) actionText() string {
 	switch a.Action.Kind {
 	case ActPass:
 		return fmt.Sprintf("<< $%d, nil >>", a.Action.Pass)
+	case ActRaw:
+		return "<< " + strings.ReplaceAll(a.Action.Raw, "@ID@", strconv.Itoa(a.ID)) + " >>"
 	case ActCall:
 		var args []string
 		if a.Action.Ctx {
